@@ -311,7 +311,7 @@ class ColumnDefinition:
             return TYPE_AFFINITY.INTEGER
         elif "CHAR" in column_type or "CLOB" in column_type or "TEXT" in column_type:
             return TYPE_AFFINITY.TEXT
-        elif "BLOB" in column_type or column_type == DATA_TYPE.NOT_SPECIFIED:
+        elif "BLOB" in column_type or data_type == DATA_TYPE.NOT_SPECIFIED:
             return TYPE_AFFINITY.BLOB
         elif "REAL" in column_type or "FLOA" in column_type or "DOUB" in column_type:
             return TYPE_AFFINITY.REAL
@@ -478,6 +478,10 @@ class ColumnDefinition:
         derived_data_type = derived_data_type.replace(" ", "_")
 
         for data_type in DATA_TYPE:
+
+            # NOT_SPECIFIED and INVALID are markers of this library, not type names a statement can declare
+            if data_type in (DATA_TYPE.NOT_SPECIFIED, DATA_TYPE.INVALID):
+                continue
 
             # We remove any numerical values from the end since sqlite does not recognize them in the data types
             if sub(r"_\d+.*$", "", data_type) == derived_data_type:
